@@ -233,6 +233,31 @@ def gen_traj(rng, n, kind):
     return poses
 
 
+def short_q(rng):
+    """a quaternion with few significant bits: a Hurwitz unit or a dyadic, roughly unit one (the
+    modelled formulas are polynomial, the tie does not need unit norm)"""
+    if rng.random() < 0.5:
+        return list(rng.choice(HURWITZ))
+    while True:
+        q = [dy(rng, 3, 1.0) for _ in range(4)]
+        if 0.5 <= sum(v * v for v in q) <= 1.5:
+            return q
+
+
+def short_traj(rng, n, ref=None):
+    """poses with few significant bits (multiples of 2^-4 / 2^-3), so that the exact rational evaluation of
+    the degree-30 polynomials of the pipeline stays cheap; with ref: a noisy copy of its translations"""
+    poses = []
+    t = [dy(rng, 4, 4.0) for _ in range(3)]
+    for i in range(n):
+        if ref is not None:
+            poses.append([ref[i][j] + dy(rng, 4, 0.5) for j in range(3)] + short_q(rng))
+        else:
+            poses.append(list(t) + short_q(rng))
+            t = [t[j] + dy(rng, 4, 1.0) for j in range(3)]
+    return poses
+
+
 def perturb(rng, poses, sigma_t=0.05, sigma_r=0.05):
     out = []
     for p in poses:
@@ -457,7 +482,7 @@ def run(ctx):
         plan.append((rng.randint(2, 12), 1, 4, rng.choice(shapes), D, False))
     for sh in shapes:
         plan.append((rng.randint(2, 12), 3, 8, sh, rng.randint(1, 6), False))
-    for _ in range(ctx.scale(20, 400)):
+    for _ in range(ctx.scale(14, 200)):
         a, b = rng.choice(INTERVALS)
         plan.append((rng.randint(2, 60), a, b, rng.choice(shapes), rng.randint(1, 6), rng.random() < 0.3))
     recips = {}
@@ -477,7 +502,7 @@ def run(ctx):
         allcols = [(bi, d) for bi in range(cols_in.shape[0]) for d in range(D)]
         rng.shuffle(allcols)
         tol = Fraction(0) if is_pow2(b) else TOLQ * 8
-        for (bi, d) in allcols[:ctx.scale(3, 12)]:
+        for (bi, d) in allcols[:ctx.scale(3, 8)]:
             i = len(chs_meta)
             chs_meta.append(dict(kind='chspline', points=pts.tolist(), a=a, b=b, line=ln, column=(bi, d)))
             chs_lits.append('(%d%%nat, %d%%nat, %s, %s, (Some %s), %s)' % (
@@ -521,6 +546,7 @@ def run(ctx):
     if cnt_lits:
         files.append(('cnt_000', HDR_Q + 'Eval vm_compute in cnt_bad %s.\n' % coq_list(cnt_lits)))
 
+    tA = time.time() - ctx.t0
     # ================================================================ B: bspline
     bsq_meta, bsq_lits = [], []
     bplan = []
@@ -529,7 +555,7 @@ def run(ctx):
     for N in (1, 2, 3, 4, 60):
         bplan.append((N, 1, 2, True))
     bplan += [(3, 1, 4, False), (2, 1, 4, False)]                   # too few poses: raises
-    for _ in range(ctx.scale(14, 300)):
+    for _ in range(ctx.scale(14, 150)):
         a, b = rng.choice(INTERVALS)
         ex = rng.random() < 0.4
         bplan.append((rng.randint(1 if ex else 4, 60), a, b, ex))
@@ -564,7 +590,7 @@ def run(ctx):
         ti = T.reshape(-1, N, 3)
         cols = [(bi, d) for bi in range(ti.shape[0]) for d in range(3)]
         rng.shuffle(cols)
-        for (bi, d) in cols[:ctx.scale(2, 6)]:
+        for (bi, d) in cols[:ctx.scale(2, 4)]:
             i = len(bsq_meta)
             bsq_meta.append(dict(rep, column=(bi, d), raised=raised))
             o = 'None' if out is None else '(Some %s)' % qlist(out.tensor().reshape(-1, out.shape[-2], 7)[bi, :, d].tolist())
@@ -574,7 +600,7 @@ def run(ctx):
         files.append(('bsq_%03d' % si, HDR_Q + 'Eval vm_compute in bsq_bad %s.\n' % coq_list(sh)))
     # law checks on general poses
     lplan = [(4, 1, 4), (5, 1, 2), (8, 1, 10), (60, 1, 5), (17, 3, 10)]
-    for _ in range(ctx.scale(8, 150)):
+    for _ in range(ctx.scale(8, 100)):
         a, b = rng.choice(INTERVALS)
         lplan.append((rng.randint(4, 60), a, b))
     for (N, a, b) in lplan:
@@ -593,14 +619,15 @@ def run(ctx):
                 viol('bspline:' + which, why, dict(kind='bspline-law', which=which, data=dat, a=a, b=b, extra=extra))
     ctx.traces += len(lplan)
 
+    tB = time.time() - ctx.t0
     # ================================================================ C: metrics
     mmeta, mlits = [], []
-    sizes = [3, 4, 5, 8, 13, 30, 200] + [rng.randint(3, 200) for _ in range(ctx.scale(6, 120))]
+    sizes = [3, 4, 5, 8, 13, 30, 200] + [rng.randint(3, 200) for _ in range(ctx.scale(2, 40))]
     ci = 0
     for n in sizes:
-        kind = 'exact' if ci % 3 == 0 else 'generic'
-        ref = gen_traj(rng, n, kind)
-        est = perturb(rng, ref) if kind == 'generic' else gen_traj(rng, n, 'exact')
+        kind = 'exact' if ci % 3 == 0 else 'short'
+        ref = gen_traj(rng, n, kind) if kind == 'exact' else short_traj(rng, n)
+        est = short_traj(rng, n, ref) if kind == 'short' else gen_traj(rng, n, 'exact')
         dt, diff = 0.1, rng.choice([0.01, 0.02])
         t0 = rng.choice([0.0, 1311868163.0])
         rst = [t0 + i * dt for i in range(n)]
@@ -629,17 +656,17 @@ def run(ctx):
         ci += 1
         variants = []
         ets = ['translation', 'rotation', 'pose']
-        for _ in range(ctx.scale(3, 6)):
+        for _ in range(ctx.scale(3, 5)):
             al = rng.choice([(False, False, False), (False, False, False), (True, False, False), (True, True, False),
                              (False, True, False), (False, False, True)])
-            if kind == 'exact' and (al[0] or al[1]):
-                al = (False, False, True)
+            if (kind == 'exact' or n > 40) and (al[0] or al[1]):
+                al = (False, False, True)            # the SVD result has 53-bit entries: keep those cases small
             v = dict(base, rpe=rng.random() < 0.6, etype=rng.choice(ets), align=al[0], scale=al[1], origin=al[2])
             if v['rpe']:
                 v.update(associate=rng.choice(['frame', 'frame', 'distance']), all=rng.random() < 0.5, rpair=rng.random() < 0.5,
                          rtol=rng.choice([0.1, 0.25]))
                 v['delta'] = float(rng.choice([1, 1, 2, 3, 5])) if v['associate'] == 'frame' else \
-                    (float(rng.choice([1, 2, 3, 4])) if kind == 'exact' else round(rng.uniform(0.3, 2.5), 3))
+                    (float(rng.choice([1, 2, 3, 4])) if kind == 'exact' else round(rng.uniform(0.8, 4.0), 3))
             variants.append(v)
         for v in variants:
             res, svd, err = call_metric(pp, torch, v)
@@ -686,8 +713,9 @@ def run(ctx):
         pf_lits.append('(%d%%nat, %d%%nat, (%d)%%Z, %s, %s)' % (len(pf_meta) - 1, n, d, cbool(allp), out))
     files.append(('pf_000', HDR_Q + 'Eval vm_compute in pf_bad %s.\n' % coq_list(pf_lits)))
 
+    tC = time.time() - ctx.t0
     # ---------------------------------------------------------------- law checks, every error type
-    lawn = ctx.scale(10, 150)
+    lawn = ctx.scale(10, 60)
     for li in range(lawn):
         n = [3, 4, 200][li] if li < 3 else rng.randint(3, 200)
         ref = gen_traj(rng, n, 'generic')
@@ -721,9 +749,10 @@ def run(ctx):
                     viol('%s:%s:%s' % ('rpe' if c['rpe'] else 'ape', which, et), why, dict(kind='metric-law', which=which, case=c, extra=extra))
     ctx.traces += lawn
 
+    tD = time.time() - ctx.t0
     # ================================================================ D: geodesic loss
     gcases, gmeta = [], []
-    gn = ctx.scale(36, 400)
+    gn = ctx.scale(24, 200)
     for gi in range(gn):
         g = GROUPS[gi % 4]
         B = 1 + (gi // 4) % 3
@@ -780,6 +809,11 @@ def run(ctx):
                  dict(kind='geodesic-law', ltype=lt, xs=xs, ys=ys))
 
     # ================================================================ run Coq
+    ctx.notes.append('python part (proof build, implementation calls, law checks), cumulative seconds after chspline / bspline / metric ties / metric laws / geodesic: %.0f %.0f %.0f %.0f %.0f' % (tA, tB, tC, tD, time.time() - ctx.t0))
+    from concurrent.futures import ThreadPoolExecutor as _TPE
+    _ex = _TPE(max_workers=1)
+    _fut = _ex.submit(run_enclosure, 'C19', 'Model.LieGroup Model.LieExp Model.LieLog Model.Spline Model.Metric', gcases,
+                      80, ctx.scale(6, 20), 150, 'geo')
     res = run_case_files('C19', files, timeout=1200)
     fam_meta = dict(chs=chs_meta, cnt=cnt_meta, bsq=bsq_meta, met=None, pf=pf_meta)
     bad = dict(chs=[], cnt=[], bsq=[], met=[], pf=[])
@@ -789,8 +823,8 @@ def run(ctx):
             ctx.obligation_broken('correspondence-file:' + name, out[-1500:])
             continue
         bad[name.split('_')[0]] += parse_nat_list(ev[0])
-    r = run_enclosure('C19', 'Model.LieGroup Model.LieExp Model.LieLog Model.Spline Model.Metric', gcases, prec=80,
-                      per_file=ctx.scale(6, 20), timeout_goal=150, tag='geo')
+    r = _fut.result()
+    _ex.shutdown()
     for name, out in r['broken']:
         ctx.obligation_broken('correspondence-file:' + name, out)
     ctx.notes.append('geodesic enclosure: %d proved within 1e-12, %d proved outside, %d undecided' % (len(r['ok']), len(set(i for i, _ in r['bad'])), len(r['undecided'])))
